@@ -9,6 +9,10 @@ block-inclusion paths for all h < r) and "c08chain" (the chains: block h produce
      commit, at the end and after close + reopen every served cross-state proof / block proof is verified with
      merkle.MerkleProve against GetCrossStateRoot(h) (= header h+1's field) / header r's BlockRoot and must yield the stored
      record / block h's hash; roots and proof bytes are compared with the evaluated spec terms (drift if only those differ).
+  3. Table "c08nest": NativeService.Invoke's handling of the leaf list across nested NativeCalls is transcribed (callee's leaves
+     first, then the caller's earlier ones; a failed frame contributes nothing); TLC checks for every script shape that exactly the
+     records registered by successful frames are leaves, once each, and provable; one real block per shape is committed and
+     every such record must be served with a verifying proof (after commit and after reopen).
 """
 from checks.merkle_common import table, cfg_text, summary, load_replay
 
@@ -27,6 +31,12 @@ def run(ctx):
         for r in rs:
             r["v"]["lab"] = lab
         rows += rs
+    # blocks whose transaction makes nested contract calls (leaves registered before / inside / after successful, caught and
+    # uncaught failing calls, two levels deep): the spec predicts the leaf list in the code's order
+    nrows, _ = table(ctx, "Merkle_c08nest_quick.cfg" if q else "Merkle_c08nest_thorough.cfg")
+    if len(nrows) < 300:
+        ctx.fail("too few nested-call rows: %d" % len(nrows))
+    rows += nrows
     # chains: exhaustive over the small alphabet, plus seeded long chains
     r1 = ctx.tlc("Merkle", "Merkle_c08chain_quick.cfg" if q else "Merkle_c08chain_thorough.cfg", workers=1)
     if r1.rc != 0:
@@ -64,7 +74,8 @@ def run(ctx):
     ctx.cov["traces_validated_against_impl"] = 0
     ctx.sample({"chains": chains[:3], "long": allk[0]})
     ctx.sample({"row": rows[3]["v"]})
-    ctx.note("%d chains, %d block commits on a real ledger" % (s["chains"], s["commits"]))
+    ctx.cov["nested_call_blocks"] = s.get("nested_call_blocks", 0)
+    ctx.note("%d chains, %d block commits on a real ledger (%d with nested calls)" % (s["chains"], s["commits"], s.get("nested_call_blocks", 0)))
     return ctx.finish(rule="P-REPLAY: all chains of %d blocks over the record-count alphabet of the cfg, %d simulated chains of %d blocks "
                       "with counts 0..%d and two chains that contain every count; distinct_nontrivial = distinct (labelling, k, i) "
                       "cross proofs + (r, h) block proofs + roots checked" % (3 if q else 4, num, depth, K),
